@@ -15,7 +15,16 @@ pub fn workload(ctx: &Ctx, which: Which, base: u64, per_shard: usize, runs: usiz
             let mut rng = Rng::derive(ctx.seed, base + shard as u64, k as u64);
             let prof = if rng.chance(0.75) { Profile::wild() } else { Profile::conforming() };
             let style = if rng.chance(0.8) { Style::plain() } else { Style::random(&mut rng) };
-            let c = make_case(&mut rng, &prof, None, Some(&style));
+            let mut c = make_case(&mut rng, &prof, None, Some(&style));
+            if k % 4 == 3 && which == Which::C01 {
+                // directed family: stack slots carried around nested loops
+                let s = crate::shapes::slot_loop_family(&mut rng);
+                acc.note("shapes", s.name);
+                c.g.prog = s.prog;
+                c.g.base = c.g.prog.clone();
+                c.g.funcs.clear();
+                c.printed = crate::print::print(&c.g.prog, &Style::plain(), &mut Rng::new(1));
+            }
             acc.evaluations += 1;
             let a = match analyze(&c.printed.text) {
                 Ok(a) => a,
